@@ -683,42 +683,14 @@ impl BlockFilterRpc for BlockFilterRpcImpl {
                 };
 
                 if let Some(filter_script) = filter_script.as_ref() {
-                    let filter_script_matched = match filter_script_type {
-                        ScriptType::Lock => snapshot
-                            .get(
-                                Key::TxLockScript(
-                                    filter_script,
-                                    block_number,
-                                    tx_index,
-                                    io_index,
-                                    match io_type {
-                                        CellType::Input => storage::CellType::Input,
-                                        CellType::Output => storage::CellType::Output,
-                                    },
-                                )
-                                .into_vec(),
-                            )
-                            .expect("get TxLockScript should be OK")
-                            .is_some(),
-                        ScriptType::Type => snapshot
-                            .get(
-                                Key::TxTypeScript(
-                                    filter_script,
-                                    block_number,
-                                    tx_index,
-                                    io_index,
-                                    match io_type {
-                                        CellType::Input => storage::CellType::Input,
-                                        CellType::Output => storage::CellType::Output,
-                                    },
-                                )
-                                .into_vec(),
-                            )
-                            .expect("get TxTypeScript should be OK")
-                            .is_some(),
-                    };
-
-                    if !filter_script_matched {
+                    if !entry_cell_script_starts_with(
+                        &snapshot,
+                        &tx,
+                        io_index,
+                        &io_type,
+                        &filter_script_type,
+                        &extract_raw_data(filter_script),
+                    ) {
                         continue;
                     }
                 }
@@ -792,41 +764,15 @@ impl BlockFilterRpc for BlockFilterRpcImpl {
                     };
 
                     if let Some(filter_script) = filter_script.as_ref() {
-                        match filter_script_type {
-                            ScriptType::Lock => {
-                                snapshot
-                                    .get(
-                                        Key::TxLockScript(
-                                            filter_script,
-                                            block_number,
-                                            tx_index,
-                                            io_index,
-                                            match io_type {
-                                                CellType::Input => storage::CellType::Input,
-                                                CellType::Output => storage::CellType::Output,
-                                            },
-                                        )
-                                        .into_vec(),
-                                    )
-                                    .expect("get TxLockScript should be OK")?;
-                            }
-                            ScriptType::Type => {
-                                snapshot
-                                    .get(
-                                        Key::TxTypeScript(
-                                            filter_script,
-                                            block_number,
-                                            tx_index,
-                                            io_index,
-                                            match io_type {
-                                                CellType::Input => storage::CellType::Input,
-                                                CellType::Output => storage::CellType::Output,
-                                            },
-                                        )
-                                        .into_vec(),
-                                    )
-                                    .expect("get TxTypeScript should be OK")?;
-                            }
+                        if !entry_cell_script_starts_with(
+                            &snapshot,
+                            &tx,
+                            io_index,
+                            &io_type,
+                            &filter_script_type,
+                            &extract_raw_data(filter_script),
+                        ) {
+                            return None;
                         }
                     }
 
@@ -1090,6 +1036,44 @@ impl NetRpc for NetRpcImpl {
 const MAX_PREFIX_SEARCH_SIZE: usize = u16::max_value() as usize;
 
 // a helper fn to build query options from search paramters, returns prefix, from_key, direction and skip offset
+// Whether the lock / type script of the cell of a transaction index entry (an output of the
+// transaction, or the previous output of one of its inputs) starts with the prefix. The filter is
+// checked on the cell itself, as `get_cells` does: the index of the filter script can not be asked
+// since only the registered scripts are indexed, from their own start numbers.
+fn entry_cell_script_starts_with(
+    snapshot: &rocksdb::Snapshot,
+    tx: &packed::Transaction,
+    io_index: u32,
+    io_type: &CellType,
+    script_type: &ScriptType,
+    prefix: &[u8],
+) -> bool {
+    let cell_output = match io_type {
+        CellType::Output => tx.raw().outputs().get(io_index as usize),
+        CellType::Input => tx.raw().inputs().get(io_index as usize).and_then(|input| {
+            let out_point = input.previous_output();
+            let index: u32 = out_point.index().unpack();
+            snapshot
+                .get(Key::TxHash(&out_point.tx_hash()).into_vec())
+                .expect("get tx should be OK")
+                .and_then(|value| {
+                    packed::Transaction::from_slice(&value[12..])
+                        .expect("from stored tx slice should be OK")
+                        .raw()
+                        .outputs()
+                        .get(index as usize)
+                })
+        }),
+    };
+    cell_output
+        .and_then(|output| match script_type {
+            ScriptType::Lock => Some(output.lock()),
+            ScriptType::Type => output.type_().to_opt(),
+        })
+        .map(|script| extract_raw_data(&script).starts_with(prefix))
+        .unwrap_or(false)
+}
+
 // the fixed-size part of an index key after the script: block number, tx index, io index
 const CELL_KEY_TAIL_LEN: usize = 8 + 4 + 4;
 // ... and the io type
